@@ -32,8 +32,11 @@ NON_EMPTY_WHITESPACE = r"\s+"
 OPTIONAL_BLANKS = r"[ \t]*"
 # module names are identifiers: these may contain non-ASCII characters that are not word characters for the re module
 # (combining marks, the middle dot)
-NON_EMPTY_CHAR_OR_DIGIT = r"(\w|\d|\.|[^\x00-\x7F])+"
-NON_EMPTY_CHAR_OR_DIGIT_OR_WHITESPACE = r"(\w|\d|\.|\s|[^\x00-\x7F])+"
+# one character class instead of an alternation: the alternatives overlap (digits are word characters, most non-ASCII
+# characters are word characters), and a repeated alternation with overlapping branches backtracks exponentially
+# whenever the text behind the name does not match
+NON_EMPTY_CHAR_OR_DIGIT = r"[\w.\x80-\U0010FFFF]+"
+NON_EMPTY_CHAR_OR_DIGIT_OR_WHITESPACE = r"[\w.\s\x80-\U0010FFFF]+"
 START_LINE = "^"
 END_LINE = "$"
 BRACKET_OPEN = r"\["
